@@ -22,7 +22,8 @@ K1 == <<"1">>
 K2 == <<"2">>
 K3 == <<"d", "3">>
 K4 == <<"d", "4">>      \* only ever inserted
-K5 == <<"5">>           \* only ever inserted
+K5 == <<"d2">>          \* only ever inserted; a root note whose name starts like the directory d/
+K6 == <<"d", "e", "6">> \* only ever inserted; two directories deep
 MISSING == <<"nosuch">>
 
 U(up, segs, md, dot) == [up |-> up, segs |-> segs, md |-> md, dot |-> dot]
@@ -37,11 +38,12 @@ L(url, kind, text) == [url |-> url, kind |-> kind, text |-> text, ext |-> FALSE]
 X(u, text) == [url |-> U(0, <<u>>, FALSE, FALSE), kind |-> "inline", text |-> text, ext |-> TRUE]
 LB(k, lvl, text, links) == [k |-> k, lvl |-> lvl, text |-> text, links |-> links]
 
-KeyName(k) == IF k = K1 THEN "n1" ELSE IF k = K2 THEN "n2" ELSE IF k = K3 THEN "n3" ELSE IF k = K4 THEN "n4" ELSE "n5"
+KeyName(k) == IF k = K1 THEN "n1" ELSE IF k = K2 THEN "n2" ELSE IF k = K3 THEN "n3" ELSE IF k = K4 THEN "n4"
+              ELSE IF k = K5 THEN "n5" ELSE "n6"
 
 \* the two notes a note links to
-A(k) == IF k = K1 THEN K2 ELSE IF k = K2 THEN K1 ELSE IF k = K3 THEN K2 ELSE K1
-Bk(k) == IF k = K1 THEN K3 ELSE IF k = K2 THEN K3 ELSE IF k = K3 THEN K1 ELSE K2
+A(k) == IF k = K1 THEN K2 ELSE IF k = K2 THEN K1 ELSE IF k = K3 THEN K2 ELSE IF k = K6 THEN K3 ELSE K1
+Bk(k) == IF k = K1 THEN K3 ELSE IF k = K2 THEN K6 ELSE IF k = K3 THEN K5 ELSE IF k = K6 THEN K1 ELSE K2
 
 \* variant v of the note with key k; texts carry key and variant so that they are unique
 Note(k, v) ==
@@ -70,6 +72,12 @@ Note(k, v) ==
                                                       P("self", <<L(Rel(k, d), "inline", n \o "me")>>)>>]
       [] v = 8 -> [title |-> "T" \o n, blocks |-> <<LB("Quote", 0, n \o "q", <<L(a, "inline", n \o "qa")>>),
                                                       LB("Em", 0, n \o "e", <<L(U(b.up, b.segs, FALSE, b.up = 0), "inline", n \o "eb")>>)>>]
+      [] v = 10 -> [title |-> "T" \o n, blocks |-> <<LB("Code", 0, n \o "c", <<>>),
+                                                       LB("Ref", 0, n \o "r", <<L(a, "inline", n \o "ra")>>),
+                                                       LB("Rule", 0, "", <<>>),
+                                                       P("afterrule", <<L(b, "inline", n \o "lb")>>),
+                                                       LB("Quote", 0, n \o "q", <<>>),
+                                                       LB("Ref", 0, n \o "s", <<L(b, "inline", n \o "sb")>>)>>]
       [] v = 9 -> [title |-> "T" \o n, blocks |-> <<LB("Ref", 0, n \o "m", <<L(Rel(MISSING, d), "inline", n \o "mm")>>),
                                                       P("x", <<X("https://example.com/" \o n, n \o "xx"), X("HTTPS://EXAMPLE.COM/" \o n, n \o "xy")>>),
                                                       P("w", <<L(a, "wiki", ""), L(b, "piped", n \o "pb")>>)>>]
@@ -98,7 +106,7 @@ Update(k, v) ==
     /\ steps' = Append(steps, [key |-> k, note |-> Note(k, v), new |-> k \notin DOMAIN docs])
     /\ UNCHANGED init
 
-GNext == (\E v1, v2, v3 \in 0..9 : Start(v1, v2, v3)) \/ (\E k \in {K1, K2, K3, K4, K5}, v \in 0..9 : Update(k, v))
+GNext == (\E v1, v2, v3 \in 0..10 : Start(v1, v2, v3)) \/ (\E k \in {K1, K2, K3, K4, K5, K6}, v \in 0..10 : Update(k, v))
 GSpec == GInit /\ [][GNext]_vars
 
 Emit == Started => PrintT(<<"HIST", ToJson([init |-> init, steps |-> steps])>>)
